@@ -55,9 +55,11 @@ def htc():
 @st.composite
 def stream(draw, pal, zones, names=None, iso_share=0.1, dts=None, kind=None, thirds=True):
     """One process stream. ``kind``: None (any), "H", "C"."""
-    iso = draw(st.integers(0, 999)) < int(iso_share * 1000) and kind != "H"
+    iso = draw(st.integers(0, 999)) < int(iso_share * 1000)
     a = draw(st.sampled_from(pal))
-    if iso:
+    if iso and (kind == "H" or (kind is None and draw(st.booleans()))):
+        ts, tt = a, round(a - 0.01, 6)  # a latent HOT stream has no shorthand: written out as a 0.01 K span
+    elif iso:
         ts = tt = a
     else:
         b = draw(st.one_of(st.sampled_from(pal), temperature(thirds)).filter(lambda x: x != a))
@@ -111,7 +113,7 @@ def streams(draw, min_streams=1, max_streams=8, multi_zone=None, shape=None, iso
         kind = {"only-hot": "H", "only-cold": "C"}.get(shape)
         if shape == "mixed" and n >= 2 and i < 2:
             kind = "HC"[i]  # a mixed problem really has both kinds
-        s = draw(stream(pal, labels, iso_share=iso_share if shape != "only-hot" else 0.0, dts=dts, kind=kind, thirds=thirds))
+        s = draw(stream(pal, labels, iso_share=iso_share, dts=dts, kind=kind, thirds=thirds))
         out.append(s)
     # every label of a multi-zone set is used at least once when there are enough streams
     if len(labels) > 1 and n >= len(labels):
